@@ -32,7 +32,10 @@
 (*               from the native route's                                   *)
 (*   Logs        receipt logs are not exactly the translation of the       *)
 (*               module events                                             *)
-(*   Views       a view method differs from the native query               *)
+(*   Views       a view method differs from the native query; a view made   *)
+(*               inside a message (between state-changing calls of the    *)
+(*               same transaction) does not answer on the state at that   *)
+(*               point of the sequence                                     *)
 (***************************************************************************)
 EXTENDS StakingCpc, Json
 
@@ -86,6 +89,33 @@ First(cs) == IF \E i \in 1..Len(cs) : cs[i] # OK THEN cs[CHOOSE i \in 1..Len(cs)
 
 T(c, x) == IF c THEN x ELSE OK
 
+(* views inside a message of the sequence caller (e.seq: calls in order; "op" items point into e.ops) *)
+OpsBefore(seq, p) == Cardinality({j \in 1..(p - 1) : seq[j].t = "op"})
+SeqViewCheck(e, E, p) ==
+  LET q == e.seq[p]
+      k == OpsBefore(e.seq, p)
+      stp == StateAtPoint(cf, S, e.now, e.caller, e.ops, k)
+      \* the native query after the block sees this block's EndBlock too: matured unbonding entries are liquid again
+      corr == IF q.m = "balanceOf" THEN Mature(cf, E.st, e.now).bal[q.d] - E.st.bal[q.d] ELSE 0
+  IN IF q.t # "view" THEN OK
+     ELSE IF ~ViewAnswerOk(cf, S, q, q.natPre) THEN <<"Model", "native-view-before-tx">>
+     ELSE IF k = 0 /\ q.cpc # q.natPre THEN <<"Views", q.m \o "-before-any-mutation-of-the-message-differs-from-native-query-before-tx">>
+     ELSE IF k = Len(e.ops) /\ q.cpc # q.natPost - corr THEN <<"Views", q.m \o "-after-the-last-mutation-of-the-message-differs-from-native-query-after-tx">>
+     ELSE IF ~ViewAnswerOk(cf, stp, q, q.cpc) THEN <<"Views", q.m \o "-inside-message-differs-from-the-state-at-that-point">>
+     ELSE OK
+RECURSIVE SeqViewsCheck(_, _, _)
+SeqViewsCheck(e, E, p) ==
+  IF p > Len(e.seq) \/ ~e.A.ok THEN OK
+  ELSE LET c == SeqViewCheck(e, E, p) IN IF c # OK THEN c ELSE SeqViewsCheck(e, E, p + 1)
+
+RECURSIVE BumpSeq(_, _, _)
+BumpSeq(f, e, p) ==
+  IF p > Len(e.seq) \/ ~e.A.ok THEN f
+  ELSE IF e.seq[p].t # "view" THEN BumpSeq(f, e, p + 1)
+  ELSE LET k == OpsBefore(e.seq, p)
+           pos == IF k = 0 THEN "before-mutations" ELSE IF k = Len(e.ops) THEN "after-mutations" ELSE "between-mutations"
+       IN BumpSeq(Bump(f, "seqview/" \o e.seq[p].m \o "/" \o pos), e, p + 1)
+
 TwinCheck(e) ==
   LET pre == S
       now == e.now
@@ -127,7 +157,8 @@ TwinCheck(e) ==
        T(e.A.ok /\ ~SeqEq(e.A.events, E.evs), <<"Logs", "module-events-differ-from-native">>),
        T(e.A.ok /\ ~SeqEq(logsA, Translate(e.A.events, c)), <<"Logs", "logs-not-the-translation-of-the-events">>),
        T(e.A.ok /\ e.B.sent /\ e.B.ok /\ ~SameBag(logsA, Translate(e.B.events, c)), <<"Logs", "logs-differ-from-native-events">>),
-       T(e.A.ok /\ ~LogsExplain(cf, preM, gotA, c, logsA), <<"Logs", "logs-do-not-explain-delegation-change">>)
+       T(e.A.ok /\ ~LogsExplain(cf, preM, gotA, c, logsA), <<"Logs", "logs-do-not-explain-delegation-change">>),
+       SeqViewsCheck(e, E, 1)
      >>)
 
 TwinClass(e) ==
@@ -194,7 +225,8 @@ DoTwin ==
                  c2 == IF IsSigned(E0.ops[1]) THEN Bump(c1, ForgedKey(E0)) ELSE c1
                  op == E0.ops[1]
              \* a transfer() that succeeded although the liquid balance alone did not cover it: funded by the rewards it claimed
-             IN IF op.m = "transfer" /\ E0.A.ok /\ E0.B.ok /\ op.amt > S.bal[E0.caller] THEN Bump(c2, "transfer-funded-by-claimed-rewards/" \o E0.via) ELSE c2)
+                 c3 == BumpSeq(c2, E0, 1)
+             IN IF op.m = "transfer" /\ E0.A.ok /\ E0.B.ok /\ op.amt > S.bal[E0.caller] THEN Bump(c3, "transfer-funded-by-claimed-rewards/" \o E0.via) ELSE c3)
   /\ nTwins' = nTwins + 1
   /\ UNCHANGED cf
 
